@@ -405,6 +405,9 @@ func (r *runner) runCase(c *Ctx, body func(*Ctx)) (failed bool) {
 
 func replayFile() string { return os.Getenv("VERIF_REPLAY") }
 
+// Replaying tells whether this run replays a stored case.
+func Replaying() bool { return replayFile() != "" }
+
 type replayDoc struct {
 	Property string          `json:"property"`
 	Unit     string          `json:"unit"`
